@@ -576,7 +576,8 @@ class Collection(object):
 
         object_id = data['_id']
         if isinstance(object_id, dict):
-            object_id = helpers.hashdict(object_id)
+            # the store key must not share its nested values with the stored document
+            object_id = helpers.hashdict(copy.deepcopy(object_id))
         if object_id in self._store:
             raise DuplicateKeyError('E11000 Duplicate Key Error', 11000)
 
